@@ -607,9 +607,10 @@ func c08Scenarios(tier string, r *rand.Rand) []c08Scenario {
 		{Name: "contention-release", Class: "contention",
 			Threads: []c08Thread{{Tid: 0, Name: n, StartAt: 0, HoldFor: c08ms(3000)}, {Tid: 1, Name: n, StartAt: c08ms(400), HoldFor: c08ms(300), CancelAt: long}},
 			Horizon: c08ms(5500)},
+		// four heartbeats; a heartbeat that stops after its first or second refresh lets the waiter in at 15 / 20 s
 		{Name: "long-hold-across-threshold", Class: "long-hold",
-			Threads: []c08Thread{{Tid: 0, Name: n, StartAt: 0, HoldFor: c08ms(12300)}, {Tid: 1, Name: n, StartAt: c08ms(500), HoldFor: c08ms(200), CancelAt: long}},
-			Horizon: c08ms(14500)},
+			Threads: []c08Thread{{Tid: 0, Name: n, StartAt: 0, HoldFor: c08ms(21300)}, {Tid: 1, Name: n, StartAt: c08ms(500), HoldFor: c08ms(200), CancelAt: long}},
+			Horizon: c08ms(23500)},
 		{Name: "kill-holder-before-first-heartbeat", Class: "kill-holder",
 			Threads: []c08Thread{{Tid: 0, Pid: 1, Name: n, StartAt: c08ms(200), HoldFor: -1}, {Tid: 1, Name: n, StartAt: c08ms(750), HoldFor: c08ms(200), CancelAt: long}},
 			Kills:   []c08Kill{{1, c08ms(2000)}}, Horizon: c08ms(24000)},
@@ -620,10 +621,18 @@ func c08Scenarios(tier string, r *rand.Rand) []c08Scenario {
 		{Name: "kill-holder-after-heartbeat", Class: "kill-holder",
 			Threads: []c08Thread{{Tid: 0, Pid: 1, Name: n, StartAt: c08ms(200), HoldFor: -1}, {Tid: 1, Name: n, StartAt: c08ms(750), HoldFor: c08ms(200), CancelAt: long}},
 			Kills:   []c08Kill{{1, c08ms(6500)}}, Horizon: c08ms(24000)},
+		// two waiters give up (one cancelled while blocked, one with a dead context); a third arrives
+		// afterwards and must still wait for the holder: giving up leaves the holder's lock alone
 		{Name: "cancel-blocked-waiter", Class: "cancel",
 			Threads: []c08Thread{{Tid: 0, Name: n, StartAt: 0, HoldFor: c08ms(3000)}, {Tid: 1, Name: n, StartAt: c08ms(300), HoldFor: c08ms(100), CancelAt: c08ms(1550)},
-				{Tid: 2, Name: n, StartAt: c08ms(350), HoldFor: c08ms(100), CancelAt: -1}},
-			Horizon: c08ms(3500)},
+				{Tid: 2, Name: n, StartAt: c08ms(350), HoldFor: c08ms(100), CancelAt: -1}, {Tid: 3, Pid: 1, Name: n, StartAt: c08ms(1900), HoldFor: c08ms(100), CancelAt: long}},
+			Horizon: c08ms(5000)},
+		// the lock is released and nobody wants it for a while; a late arrival (after the releaser's
+		// heartbeat goroutine has woken up once more) finds it free
+		{Name: "late-arrival-after-release", Class: "free-lock",
+			Threads: []c08Thread{{Tid: 0, Name: n, StartAt: 0, HoldFor: c08ms(700)}, {Tid: 1, Pid: 1, Name: n, StartAt: c08ms(6400), HoldFor: c08ms(200), CancelAt: long},
+				{Tid: 2, Name: n, StartAt: c08ms(7300), HoldFor: c08ms(100), CancelAt: long}},
+			Horizon: c08ms(9500)},
 		{Name: "chain-of-waiters", Class: "contention",
 			Threads: []c08Thread{{Tid: 0, Name: n, StartAt: 0, HoldFor: c08ms(2000)}, {Tid: 1, Name: n, StartAt: c08ms(250), HoldFor: c08ms(350), CancelAt: long},
 				{Tid: 2, Name: n, StartAt: c08ms(500), HoldFor: c08ms(350), CancelAt: long}, {Tid: 3, Name: n, StartAt: c08ms(750), HoldFor: c08ms(350), CancelAt: long}},
